@@ -15,7 +15,12 @@ and expression normal forms from rkstatic/x_symnf.py):
   R-C11-3  a class whose view pointer aliases storage uniquely owned by a by-value member has no
            compiler-generated copy / move operation.
   R-C11-4  AbstractArray: at() dereferences only under `offset < size()` and throws otherwise; operator[],
-           begin/end/data/size/cbegin/cend/operator bool/operator T* and setPtr agree on (ptr, numItems).
+           begin/end/data/size/cbegin/cend/operator bool/operator T* and setPtr agree on the stored range, whether it
+           is kept as (pointer, count) or as (begin pointer, end pointer): on every path of setPtr the extent equals
+           the size argument, i.e. both ends derive from the same base pointer value.
+  R-C11-7  a reference-to-element or pointer-to-elements parameter of a public member of an owning wrapper may
+           designate the array's own block: it is not read (through) after a call that can reallocate, release or
+           destroy that block - directly, through a member that does so, or inside a private helper it is handed to.
   R-C11-5  DataView::operator[] is `*(const T*)(ptr + index*stride)` with ptr of byte type on every returning
            path - the result is a reference into the viewed storage, never to a member of the view (scratch /
            cache slot); constructor and reset store both arguments.  Extra members are tolerated.
@@ -108,17 +113,54 @@ class Model:
     def __init__(self, tu):
         self.tu = tu
         self.wrappers = {}     # canonical record type -> record (subclasses of AbstractArray<T>)
-        self.bases = {}        # canonical record type of AbstractArray<T> -> (record, ptr field, size field)
+        self.bases = {}        # canonical record type of AbstractArray<T> -> (record, begin member, normal form of the element count)
+        self.reps = {}         # canonical record type of AbstractArray<T> -> representation (see discover)
+        self.unrecognised = []
         for r in tu.records.values():
             if r.get('lambda'):
                 continue
             if r.get('tmpl') == ABS:
-                pf = [f for f in r['fields'] if f['ct'].endswith('*')]
-                nf_ = [f for f in r['fields'] if not f['ct'].endswith('*')]
-                if len(pf) == 1 and len(nf_) == 1:
-                    self.bases[r['type']] = (r, pf[0]['name'], nf_[0]['name'])
+                rep = self.discover(r)
+                if rep is not None:
+                    self.bases[r['type']] = (r, rep['P'], rep['size'])
+                    self.reps[r['type']] = rep
+                else:
+                    self.unrecognised.append(r)
             elif any(b.startswith(ABS + '<') for b in r.get('bases', [])):
                 self.wrappers[r['type']] = r
+
+    def discover(self, r):
+        """representation of the viewed range in AbstractArray<T>: (begin pointer, count) or (begin pointer, end pointer).
+        dict(P=begin member, N=count member|None, E=end member|None, size=normal form of the number of elements,
+        end=normal form of the end pointer), or None when the members do not have one of these two shapes"""
+        this = ('this',)
+        pf = [f for f in r['fields'] if f['ct'].endswith('*')]
+        nf_ = [f for f in r['fields'] if f['ct'] in INT_TYPES]
+        if len(r['fields']) != len(pf) + len(nf_):
+            return None
+        if len(pf) == 1 and len(nf_) == 1:
+            P, N = pf[0]['name'], nf_[0]['name']
+            return dict(P=P, N=N, E=None, size=('field', this, N), end=mk_comm('add', [('field', this, P), ('field', this, N)]))
+        if len(pf) == 2 and not nf_:
+            # which of the two is the begin pointer: the one begin() returns
+            se = SymExec(self.tu, own=lambda f: f['q'].startswith('rkcommon::'))
+            begins = set()
+            for f in self.tu.functions.values():
+                if f.get('recid') == r['id'] and not f['dep'] and self.tu.cfg(f) is not None and last(strip_targs(f['q'])) == 'begin':
+                    try:
+                        for p in se.paths(f):
+                            if p.term[0] == 'return' and p.term[1] is not None:
+                                begins.add(unver(p.term[1]))
+                    except Unsupported:
+                        return None
+            names = {f['name'] for f in pf}
+            if len(begins) == 1:
+                b = begins.pop()
+                if isinstance(b, tuple) and b[:2] == ('field', this) and b[2] in names:
+                    P = b[2]
+                    E = (names - {P}).pop()
+                    return dict(P=P, N=None, E=E, size=('sub', ('field', this, E), ('field', this, P)), end=('field', this, E))
+        return None
 
     def base_of(self, r):
         for b in r.get('bases', []):
@@ -648,10 +690,10 @@ class WrapperAnalysis:
                     return
             elif d is not None and d[0] == 'copyof':
                 o = d[1][1]
-                if nu != ('field', o, N):
+                if nu != self.se._subst(N, {('this',): o}):
                     findings.append(Finding('R-C11-6', 'size-not-allocation-count', 'allocation shared with `%s` but the view size is `%s`' % (show(o), show(nu)), ev.node, True))
                     return
-            elif d is None and nu == ('field', X, N):
+            elif d is None and nu == self.se._subst(N, {('this',): X}):
                 pass    # allocation untouched in this function and the size is the one already recorded
             else:
                 findings.append(Finding('R-C11-6', 'size-not-allocation-count', 'cannot relate the view size `%s` to the allocation held by `%s` '
@@ -918,19 +960,36 @@ def public_mutators(tu, m, wa, w):
 # ============================================================================================
 def check_abstract(ctx, tu, tag=''):
     R4 = 'R-C11-4'
-    ctx.describe(R4, 'AbstractArray: at(i) dereferences ptr+i only under i < numItems and throws otherwise; operator[], begin, end, data, '
-                     'size, cbegin, cend, operator bool, operator T* and setPtr agree on (ptr, numItems)')
+    ctx.describe(R4, 'AbstractArray: at(i) dereferences ptr+i only under i < size() and throws otherwise; operator[], begin, end, data, '
+                     'size, cbegin, cend, operator bool, operator T* and setPtr agree on the stored range ((pointer, count) or (begin, end)): '
+                     'on every path of setPtr the extent equals the size argument')
     m = Model(tu)
     se = mk_se(tu)
     n = 0
-    for btype, (r, P, N) in sorted(m.bases.items()):
+    for r in m.unrecognised:
+        ctx.undecided(R4, short(r['type']) + tag, 'the members %s are neither (pointer, count) nor (begin pointer, end pointer with begin() '
+                      'returning one of them)' % [(f['name'], f['ct']) for f in r['fields']], rec_file(tu, r))
+    for btype, (r, P, size_nf) in sorted(m.bases.items()):
+        rep = m.reps[btype]
         this = ('this',)
         ptr = ('field', this, P)
-        num = ('field', this, N)
+        # the element count as size() computes it (a conversion of the pointer difference to size_t is part of it)
+        num = size_nf
+        for f in tu.functions.values():
+            if f.get('recid') == r['id'] and not f['dep'] and tu.cfg(f) is not None and last(strip_targs(f['q'])) == 'size':
+                try:
+                    rets = {unver(p.term[1]) for p in se.paths(f) if p.term[0] == 'return' and p.term[1] is not None}
+                except Unsupported:
+                    rets = set()
+                if len(rets) == 1:
+                    x = rets.pop()
+                    if x == size_nf or (isinstance(x, tuple) and x[0] == 'cast' and x[2] == size_nf):
+                        num = x
+        endv = rep['end']
         p0 = lambda f: ('param', 0, f['params'][0].get('name') or '') if f.get('params') else None
         expected = {
             'size': lambda f: num, 'begin': lambda f: ptr, 'data': lambda f: ptr, 'cbegin': lambda f: ptr,
-            'end': lambda f: mk_comm('add', [ptr, num]), 'cend': lambda f: mk_comm('add', [ptr, num]),
+            'end': lambda f: endv, 'cend': lambda f: endv,
             'operator bool': lambda f: ('not', ('eq', ('const', 0), num)),
             'operator[]': lambda f: ('deref', mk_comm('add', [ptr, p0(f)])),
         }
@@ -1013,10 +1072,38 @@ def check_abstract(ctx, tu, tag=''):
                     stores = {}
                     for e in p.events:
                         if e.kind == 'store' and e.place is not None:
-                            stores[e.place] = unver(e.value)
+                            # a member read after it was stored on this path has the stored value
+                            stores[e.place] = se._subst(unver(e.value), dict(stores))
                     zero_path = p.cond_of(('eq', ('const', 0), a1)) is True
-                    if stores.get(num) != a1 and not (zero_path and stores.get(num) == ('const', 0)):
-                        probs.append(('size-not-stored', 'numItems is set to `%s` instead of the size argument' % (show(stores[num]) if num in stores else 'nothing')))
+                    if rep['N'] is not None:
+                        cnt = ('field', this, rep['N'])
+                        if stores.get(cnt) != a1 and not (zero_path and stores.get(cnt) == ('const', 0)):
+                            probs.append(('size-not-stored', '%s is set to `%s` instead of the size argument'
+                                          % (rep['N'], show(stores[cnt]) if cnt in stores else 'nothing')))
+                    else:
+                        # (begin, end) representation: end - begin must be the size argument on every path, i.e. both are derived
+                        # from the same base pointer value
+                        endm = ('field', this, rep['E'])
+                        pvs, evs_ = stores.get(ptr), stores.get(endm)
+                        if evs_ is None:
+                            probs.append(('size-not-stored', '%s is not set' % rep['E']))
+                        elif pvs is not None:
+                            sub0 = {a1: ('const', 0)} if zero_path else {}
+                            renorm = lambda x: mk_comm('add', [se._subst(y, sub0) for y in x[1:]]) if isinstance(x, tuple) and x and x[0] == 'add' \
+                                else se._subst(x, sub0)
+                            got = renorm(evs_)
+                            want_e = renorm(mk_comm('add', [pvs, a1]))
+                            if got != want_e:
+                                simple = lambda x: not find_all(x, lambda t: t[0] in ('opaque', 'call', 'var', 'cond', 'cast'))
+                                if simple(got) and simple(want_e):
+                                    probs.append(('extent-base-mixed',
+                                                  'on the path %s `%s` is set to `%s` but `%s` to `%s`: the two ends of the range are derived from different '
+                                                  'base pointers (the normalised member vs the raw argument), so size() = %s - %s is not the size argument '
+                                                  '(an empty array from a non-null source becomes [nullptr, source): size() huge, at(0) does not throw)'
+                                                  % ('where the size is zero' if zero_path else 'where the size is non-zero', P, show(pvs), rep['E'], show(evs_),
+                                                     rep['E'], P)))
+                                else:
+                                    und.append('%s is set to `%s` and %s to `%s`' % (P, show(pvs), rep['E'], show(evs_)))
                     pv = stores.get(ptr)
                     zero = p.cond_of(('eq', ('const', 0), a1))
                     if pv == a0:
@@ -1035,7 +1122,7 @@ def check_abstract(ctx, tu, tag=''):
                 elif und:
                     ctx.undecided(R4, inst, '; '.join(und), loc)
                 else:
-                    ctx.ok(R4, inst, 'stores (ptr, numItems) = (argument or nullptr when empty, argument)', loc)
+                    ctx.ok(R4, inst, 'stores (begin, extent) = (argument or nullptr when empty, size argument) on every path', loc)
     ctx.floor(R4, n, 33, '11 members (10 accessors + setPtr) x 3 element types')
 
 
@@ -1190,36 +1277,125 @@ def check_dataview(ctx, tu, tag=''):
 
 
 REALLOC_CALLS = {'reserve', 'resize', 'push_back', 'emplace_back', 'insert', 'emplace', 'assign', 'shrink_to_fit', 'clear',
-                 'operator=', 'swap', 'erase', 'pop_back'}
+                 'operator=', 'swap', 'erase', 'pop_back', 'reset'}
 
 
 def check_alias_after_realloc(ctx, tu, tag=''):
-    """R-C11-7: in a member of a wrapper that owns a by-value container, a reference parameter of the element type may
-    alias an element of that very container (a.resize(n, a[0]), a.push_back(a[0])).  After a call that can reallocate
-    or destroy the owner's elements, such a parameter must not be read any more (reading it inside the argument list of
-    that call itself is fine: the standard containers handle self-aliasing arguments)."""
+    """R-C11-7: in a member of an owning wrapper, a parameter through which the caller can name storage - a reference to an element
+    value (a.resize(n, a[0])) or a pointer to elements (a.reset(a.data() + k, n), a pointer / ArrayView taken earlier) - may designate
+    the array's *own* block.  After a call that can reallocate, release or destroy the owned elements (on the owner member directly,
+    or through a member of the same class that does so), such a parameter must not be read (reference) / read through (pointer: passed
+    on to a call or constructor, dereferenced) any more.  Reading it inside the argument list of that very call is fine: the arguments
+    are evaluated before the call, and the standard containers handle self-aliasing arguments."""
     R7 = 'R-C11-7'
-    ctx.describe(R7, 'a by-reference element parameter of an owning wrapper is never read after a call that can reallocate or '
-                     'destroy the owned elements on the same path (it may alias one of them)')
+    ctx.describe(R7, 'a reference / pointer parameter of a member of an owning wrapper (it may designate the array\'s own storage) is not read '
+                     '/ read through after a call that can reallocate, release or destroy the owned elements on the same path')
     n = 0
-    for f in sorted(tu.functions.values(), key=lambda x: (x['q'], x['fty'])):
-        if f['dep'] or tu.cfg(f) is None or not f.get('recid') or f.get('ctor') or f.get('dtor'):
+    by_rec = {}
+    for f in tu.functions.values():
+        if f['dep'] or tu.cfg(f) is None or not f.get('recid'):
+            continue
+        by_rec.setdefault(f['recid'], []).append(f)
+
+    def owner_ids_of(r):
+        return {fl['id'] for fl in r['fields'] if re.match(r'std::(vector|deque|basic_string|shared_ptr|unique_ptr)<', fl['ct'])}
+
+    # members that (transitively) reallocate / release the owner: fixpoint over the class's own call graph
+    releasing = {}
+    for rid, fs in by_rec.items():
+        r = tu.records.get(rid)
+        if r is None or not r['q'].startswith('rkcommon::utility::'):
+            continue
+        oids = owner_ids_of(r)
+        if not oids:
+            continue
+        direct, calls = {}, {}
+        for f in fs:
+            g = tu.cfg(f)
+            d = None
+            cs = set()
+            for b, i, x in g.stmts():
+                k = x.get('kind')
+                if k in ('CXXMemberCallExpr', 'CXXOperatorCallExpr'):
+                    sd, obj, args = tu.call_parts(x)
+                    o = tu.strip(obj, casts=True) if obj is not None else None
+                    if o is not None and o.get('kind') == 'MemberExpr' and tu.sd(o).get('d') in oids \
+                            and last(strip_targs(sd.get('q', ''))) in REALLOC_CALLS and not re.search(r'\)\s*const\b', sd.get('fty', '')):
+                        d = d or x
+                    cal = tu.callee_fn(x)
+                    if cal is not None and cal.get('recid') == rid and (o is None or tu.is_this(o) or o.get('kind') == 'CXXThisExpr'):
+                        cs.add(cal['id'])
+            direct[f['id']] = d
+            calls[f['id']] = cs
+        rel = {fid for fid, d in direct.items() if d is not None}
+        changed = True
+        while changed:
+            changed = False
+            for fid, cs in calls.items():
+                if fid not in rel and cs & rel:
+                    rel.add(fid)
+                    changed = True
+        for fid in rel:
+            releasing[fid] = True
+
+    # Two passes: first the non-public helpers (what they read late is charged to the public member that hands its own parameter
+    # down to them; a private helper is only ever called with arguments its class chooses), then the public members.
+    late = {}       # helper function id -> {parameter index: (read node, releasing call id, 'ref'|'ptr')}
+    cands = [f for f in sorted(tu.functions.values(), key=lambda x: (x['q'], x['fty']))
+             if not (f['dep'] or tu.cfg(f) is None or not f.get('recid') or f.get('ctor') or f.get('dtor'))]
+    cands.sort(key=lambda f: f.get('access') in (None, 'public', 'protected', 'none'))
+    for rounds in range(3):
+      for f in cands:
+        is_api = f.get('access') in (None, 'public', 'protected', 'none')
+        if is_api and rounds < 2:
+            continue
+        if not is_api and rounds == 2:
             continue
         r = tu.records.get(f['recid'])
         if r is None or not r['q'].startswith('rkcommon::utility::') or not r.get('targs') or 't' not in r['targs'][0]:
             continue
         elem = r['targs'][0]['t']
-        owners = [fl for fl in r['fields'] if re.match(r'std::(vector|deque|basic_string)<', fl['ct'])]
-        if not owners:
+        owner_ids = owner_ids_of(r)
+        if not owner_ids:
             continue
         refs = [p for p in f['params'] if p['ct'] in ('const %s &' % elem, '%s &' % elem)]
-        if not refs:
+        ptrs = [p for p in f['params'] if p['ct'] in ('%s *' % elem, 'const %s *' % elem)]
+        if not refs and not ptrs:
             continue
-        owner_ids = {fl['id'] for fl in owners}
         g = tu.cfg(f)
         inst = inst_name(f) + tag
         ref_ids = {p['id']: p['name'] for p in refs}
+        ptr_ids = {p['id']: p['name'] for p in ptrs}
+        pindex = {p['id']: i for i, p in enumerate(f['params'])}
         found = []
+
+        def reads_through(x):
+            """is this use of a pointer parameter a read of the pointed-to storage (argument of a call / constructor, dereference,
+            subscript, member access), possibly after pointer arithmetic?  A comparison or a test of the pointer itself is not."""
+            node = x
+            hops = 0
+            while hops < 12:
+                par = tu.par(node)
+                if par is None:
+                    return False
+                k = par.get('kind')
+                if k in ('ImplicitCastExpr', 'ParenExpr', 'CStyleCastExpr', 'CXXStaticCastExpr', 'CXXReinterpretCastExpr', 'CXXConstCastExpr',
+                         'MaterializeTemporaryExpr', 'ExprWithCleanups', 'CXXBindTemporaryExpr'):
+                    node = par
+                elif k == 'BinaryOperator' and par.get('opcode') in ('+', '-'):
+                    node = par
+                elif k in ('CallExpr', 'CXXMemberCallExpr', 'CXXOperatorCallExpr', 'CXXConstructExpr', 'CXXTemporaryObjectExpr'):
+                    return True
+                elif k == 'UnaryOperator' and par.get('opcode') == '*':
+                    return True
+                elif k == 'ArraySubscriptExpr':
+                    return True
+                elif k == 'MemberExpr' and par.get('isArrow'):
+                    return True
+                else:
+                    return False
+                hops += 1
+            return False
 
         def transfer(blk, i, el, st):
             if el[0] != 'S':
@@ -1232,24 +1408,71 @@ def check_alias_after_realloc(ctx, tu, tag=''):
                 sd, obj, args = tu.call_parts(x)
                 o = tu.strip(obj, casts=True) if obj is not None else None
                 if o is not None and o.get('kind') == 'MemberExpr' and tu.sd(o).get('d') in owner_ids \
-                        and sd.get('q', '').split('::')[-1] in REALLOC_CALLS:
+                        and last(strip_targs(sd.get('q', ''))) in REALLOC_CALLS and not re.search(r'\)\s*const\b', sd.get('fty', '')):
                     return [x['id']]
-            if k == 'DeclRefExpr' and x.get('referencedDecl', {}).get('id') in ref_ids and st is not None:
-                found.append((x, st))
+                cal = tu.callee_fn(x)
+                if cal is not None and cal.get('recid') == f['recid'] and (o is None or o.get('kind') == 'CXXThisExpr' or tu.is_this(o)):
+                    # a helper that releases the block and afterwards reads its own parameter: charged here when that parameter is
+                    # (derived from) one of ours
+                    for ai, (rnode, rcall, rhow) in late.get(cal['id'], {}).items():
+                        if ai < len(args):
+                            a = tu.strip(args[ai], casts=True)
+                            while a is not None and a.get('kind') == 'BinaryOperator' and a.get('opcode') in ('+', '-'):
+                                a = tu.strip(tu.kids(a)[0], casts=True)
+                            did = a.get('referencedDecl', {}).get('id') if a is not None and a.get('kind') == 'DeclRefExpr' else None
+                            if did in ref_ids or did in ptr_ids:
+                                found.append((a, x['id'], 'ref' if did in ref_ids else 'ptr', (cal, rnode, rcall)))
+                    if releasing.get(cal['id']):
+                        return [x['id']]
+            if k == 'DeclRefExpr' and st is not None:
+                did = x.get('referencedDecl', {}).get('id')
+                if did in ref_ids:
+                    found.append((x, st, 'ref'))
+                elif did in ptr_ids and reads_through(x):
+                    found.append((x, st, 'ptr'))
             return [st]
 
         g.explore([None], transfer)
+        if not is_api:
+            lr = {}
+            for fd in found:
+                x, callid, how = fd[0], fd[1], fd[2]
+                i_ = pindex.get(x.get('referencedDecl', {}).get('id'))
+                if i_ is not None:
+                    lr.setdefault(i_, (x, callid, how))
+            late[f['id']] = lr
+            continue
         n += 1
         if found:
-            x, callid = found[0]
+            x, callid, how = found[0][0], found[0][1], found[0][2]
+            via = found[0][3] if len(found[0]) > 3 else None
             call = tu.node(callid)
-            ctx.violation(R7, inst, 'parameter `%s` (a reference to an element type value, which may be an element of this array) is read at %s '
-                          'after `%s` at %s may already have reallocated or destroyed the owned elements: use-after-free for '
-                          'a.%s(..., a[i])' % (ref_ids[x['referencedDecl']['id']], tu.loc(x), tu.show(call), tu.loc(call), f['q'].split('::')[-1]),
-                          tu.loc(x), key='%s|%s|%s|param-read-after-realloc' % (R7, tu.fn_file(f), pattern_name(tu, f)),
-                          path=['%s' % inst, 'reallocating call %s at %s' % (tu.show(call), tu.loc(call)), 'later read of the parameter at %s' % tu.loc(x)])
+            if via is not None:
+                hcal, rnode, rcall = via
+                ctx.violation(R7, inst, 'parameter `%s` is handed to `%s`, which first releases / reallocates the array\'s own block (`%s` at %s) and then '
+                              'reads through it at %s; `%s` may point into that block (a pointer, reference or view taken from this array earlier)'
+                              % ((ref_ids if how == 'ref' else ptr_ids)[x['referencedDecl']['id']], short(strip_targs(hcal['q'])),
+                                 tu.show(tu.node(rcall)), tu.loc(tu.node(rcall)), tu.loc(rnode), (ref_ids if how == 'ref' else ptr_ids)[x['referencedDecl']['id']]),
+                              tu.loc(x), key='%s|%s|%s|%s' % (R7, tu.fn_file(f), pattern_name(tu, f),
+                                                               'param-read-after-realloc' if how == 'ref' else 'pointer-param-read-after-release'),
+                              path=[inst, 'passed to %s at %s' % (hcal['q'], tu.loc(call)), 'released at %s' % tu.loc(tu.node(rcall)), 'read at %s' % tu.loc(rnode)])
+                continue
+            nm = (ref_ids if how == 'ref' else ptr_ids)[x['referencedDecl']['id']]
+            if how == 'ref':
+                ctx.violation(R7, inst, 'parameter `%s` (a reference to an element type value, which may be an element of this array) is read at %s '
+                              'after `%s` at %s may already have reallocated or destroyed the owned elements: use-after-free for '
+                              'a.%s(..., a[i])' % (nm, tu.loc(x), tu.show(call), tu.loc(call), f['q'].split('::')[-1]),
+                              tu.loc(x), key='%s|%s|%s|param-read-after-realloc' % (R7, tu.fn_file(f), pattern_name(tu, f)),
+                              path=['%s' % inst, 'reallocating call %s at %s' % (tu.show(call), tu.loc(call)), 'later read of the parameter at %s' % tu.loc(x)])
+            else:
+                ctx.violation(R7, inst, 'the elements `%s` points to are read at %s (`%s`) after `%s` at %s has already released / reallocated the '
+                              'array\'s own block; `%s` may point into that block (a.%s(a.data() + k, n), a pointer or view taken earlier): the source '
+                              'is freed before it is copied' % (nm, tu.loc(x), tu.show(tu.par(x) or x), tu.show(call), tu.loc(call), nm, f['q'].split('::')[-1]),
+                              tu.loc(x), key='%s|%s|%s|pointer-param-read-after-release' % (R7, tu.fn_file(f), pattern_name(tu, f)),
+                              path=['%s' % inst, 'releasing call %s at %s' % (tu.show(call), tu.loc(call)), 'later read through the parameter at %s' % tu.loc(x)])
         else:
-            ctx.ok(R7, inst, 'reference parameter(s) %s not read after a reallocating call' % sorted(ref_ids.values()), tu.fn_loc(f))
+            ctx.ok(R7, inst, 'parameter(s) %s not read (through) after a reallocating / releasing call' % sorted(list(ref_ids.values()) + list(ptr_ids.values())),
+                   tu.fn_loc(f))
     ctx.floor(R7 + tag, n, 3, 'OwnedArray<T>::resize(size, const T&) for the instantiated element types')
 
 
